@@ -229,6 +229,22 @@ class Interp:
             return z3.Const(name, V)
         return z3.Const(name, sort)
 
+    def embed(self, value):
+        """z3 constant (sort V) standing for a concrete hashable value (equal values share the constant)"""
+        if isinstance(value, str):
+            return self.lit(value)
+        try:
+            key = ("obj", type(value).__name__, value)
+            hash(key)
+        except TypeError:
+            key = ("obj", type(value).__name__, repr(value))
+        if key not in self.lits:
+            c = z3.Const(f"val_{len(self.lits)}_{type(value).__name__}", V)
+            for o, oc in self.lits.items():
+                self.add_axiom(c != oc)
+            self.lits[key] = c
+        return self.lits[key]
+
     def lit(self, s):
         """z3 constant (sort V) standing for the concrete text s"""
         if s not in self.lits:
